@@ -73,7 +73,7 @@ pub fn threshold(rng: &mut ChaCha20Rng, thorough: bool) -> u32 {
     65..=89 => *pick(rng, &mid),
     90..=97 => *pick(rng, &big),
     _ => {
-      if thorough {
+      if thorough && rng.gen_bool(0.3) {
         *pick(rng, &huge)
       } else {
         *pick(rng, &big)
